@@ -435,7 +435,9 @@ class IterNode(tp.Generic[FrameOrSeries]):
         apply_constructor: tp.Callable[..., tp.Union[Frame, Series]]
 
         if self._apply_type is IterNodeApplyType.SERIES_ITEMS:
-            if isinstance(self._container, Frame) and kwargs['axis'] == 0:
+            # NOTE: axis 0 iterates columns (labelled by columns), but windows with axis 0 move along, and are labelled by, the index
+            axis_columns = 1 if isinstance(self, IterNodeWindow) else 0
+            if hasattr(self._container, '_columns') and kwargs['axis'] == axis_columns: # Frame or Quilt
                 index_constructor = self._container._columns.from_labels
             else:
                 index_constructor = self._container._index.from_labels
